@@ -12,7 +12,11 @@ PROPERTY = "C06"
 RULE = ("Hypothesis draws an exact solution (families W with T:=(G+Lambda g)"
         "/kappa and any Lambda; exact vacuum F, KS, PP with vacuum flag on or "
         "off; FLRW with arbitrary lapse supplied as fluid variables), time, "
-        "grid, fd_order, boundary, input form. Constraints must converge to 0 "
+        "grid, fd_order, boundary, input form, Einstein's constant (8 pi, 1, "
+        "2.5; matter scaled), the key requested first; also KS with the box "
+        "inside the horizon and FLRW with scale factor 2e-3. A failure on "
+        "the pair (h, h/2) is re-examined on (h/2, h/4). "
+        "Constraints must converge to 0 "
         "and every dt-quantity to the exact t-derivative of the exact field "
         "(8th-order central difference in t of the closed-form fields, no "
         "aurel code) at order >= p-1.5 or reach the round-off floor. "
